@@ -107,6 +107,8 @@ func (h Handler) ServeHTTP(w http.ResponseWriter, r *http.Request) {
 	}
 	if resp == nil {
 		writeErr(w, msgType, fmt.Errorf("unsupported message type"))
+		// Any error ends the session the request was sent in
+		h.invalidateToken(ctx)
 		return
 	}
 
